@@ -20,6 +20,8 @@ BUILTIN_ENUMS = {
     "Ordering": ["Less", "Equal", "Greater"],
     "Entry": ["Vacant", "Occupied"],
     "Bound": ["Included", "Excluded", "Unbounded"],
+    # local enum of lazy_format 2.0.3's `write!` helper macro (expanded inside typeshare's functions)
+    "Style": ["Empty", "Plain", "Format"],
 }
 BUILTIN_STRUCTS = {
     "Range": ["start", "end"],
